@@ -69,7 +69,7 @@ CLAIMED = {
  'C11': dict(
    text='Unbounded proof (Verus/Z3) over the real bodies of CosetTable::{new, len, canon, get, set, join, merge, compact}, scan, scan_inverse, scan_both_ways, '
         'scan_and_connect, expanded_relator_set, coset_table and coset_representative: for ANY presentation and subgroup generators, the table coset_table returns is '
-        'complete (every generator and inverse generator defined at every row), the action of the inverse generator undoes the generator, every relator traced from every '
+        'complete (every generator and inverse generator defined at every row), the action of the inverse generator undoes the generator, the action is transitive, every relator traced from every '
         'row ends in that row and every subgroup generator traced from row 0 ends in row 0 (completeness and inverse-consistency from invariants of the enumeration and of '
         'the coincidence procedure, closure from the final consistency pass, all carried through the renumbering of compact), so that the result meets the precondition '
         'of coset_representative; for every complete table in which inverse generators undo generators, every '
@@ -77,7 +77,7 @@ CLAIMED = {
         'trace exactly the prefix they report.',
    note='Trusted: Verus+Z3, vstd, VecDeque/BTreeMap::from specs; all_gens and five std collection expressions in coset_table (BTreeSet new/extend/iteration, iter().chain(), '
         'Vec::extend(Option)) by their std semantics; the row-limit assert as an abort; FreeWord and IntPartition by the contracts proved in units free_words / partitions '
-        '(run as dependencies). NOT decided by contracts (bounded stand-in): transitivity, row count = index; termination.',
+        '(run as dependencies). NOT decided by contracts (bounded stand-in): row count = index (rows are pairwise different cosets); termination.',
    ref='5 C11', technique=TECH),
  'C05': dict(
    text='Unbounded proof (Verus/Z3) over the real bodies of build_set, build_sym_using_ms, orbit_reps_2d, cover and oriented_cover: for every complete base '
